@@ -5,7 +5,7 @@ From Coq Require Import QArith Qcanon List Arith Bool Permutation.
 From Verif.lib Require Import Bsp NpCore NpQ NpF.
 From Verif.C02 Require Import Proofs.
 From Verif.C02 Require Proofs_ref.
-From Verif.C19 Require Import Model Proofs Proofs2 Proofs3 Proofs4 Proofs5 Proofs6 FloatProofs.
+From Verif.C19 Require Import Model Proofs Proofs2 Proofs3 Proofs4 Proofs5 Proofs6 Proofs7 FloatProofs.
 Import ListNotations.
 Open Scope Qc_scope.
 
@@ -24,6 +24,15 @@ Theorem make_knots_mult : forall p a b n mult i, (1 <= n)%nat -> (1 <= mult)%nat
   kn (make_knots p a b n mult) i = a + natq (bpidx p n mult i) * ((b - a) / natq n).
 Proof. exact kn_make_knots. Qed.
 Print Assumptions make_knots_mult.
+
+(* the requested multiplicities, by counting: break point j = a + j(b-a)/n occurs exactly p+1 times
+   in the knot vector for j = 0 and j = n, and exactly mult times for 0 < j < n *)
+Theorem make_knots_multiplicity : forall p a b n mult j,
+  a < b -> (1 <= n)%nat -> (1 <= mult)%nat -> (j <= n)%nat ->
+  count_occ Qc_eq_dec (make_knots p a b n mult) (a + natq j * ((b - a) / natq n)) =
+  if (Nat.eqb j 0 || Nat.eqb j n)%bool then (p + 1)%nat else mult.
+Proof. exact make_knots_multiplicity_l. Qed.
+Print Assumptions make_knots_multiplicity.
 
 (* non-decreasing, open (first/last knot p+1 times), last span non-empty: the hypotheses
    of C02's findspan theorems *)
@@ -82,25 +91,19 @@ Print Assumptions make_knots_basis_properties.
 
 (* ---- the constructor in binary64 (bounded; computed, then lifted over p and mult) ---- *)
 
-(* for the 266 intervals [a,b] listed in the statement (a, b the doubles nearest to the given
+(* for the 16 intervals [a,b] listed in the statement (a, b the doubles nearest to the given
    rationals: f_of_q num/den is the correctly rounded quotient of two exact doubles, i.e. what the
    decimal or rational literal denotes), every n <= 2000, EVERY degree and EVERY interior
    multiplicity: non-decreasing, the mesh is the list of n+1 strictly increasing break points,
    p+1+mult(n-1)+p+1 knots, first knot a, last knot exactly b.
-   pairs_of l = all (x, y) with x before y in l. *)
+   (The list is short because the thorough tier re-checks this file with coqchk, which has no VM:
+   37 s per interval; see FloatGridDefs.v.  The correspondence run evaluates the same computed
+   check NpF.bp_ok on further intervals in every run.) *)
 Theorem make_knots_float_bounded_2000 : forall qa qb n p mult,
   In (qa, qb)
-  (pairs_of [0; 1 # 10; 2 # 10; 3 # 10; 4 # 10; 5 # 10; 6 # 10; 7 # 10; 8 # 10; 9 # 10; 1]
-   ++ pairs_of [0; 1 # 4; 1 # 3; 1 # 2; 2 # 3; 3 # 4; 1]
-   ++ pairs_of [-2; -1; 0; 1; 2; 3; 5; 10]
-   ++ pairs_of [0; 1 # 7; 2 # 7; 3 # 7; 4 # 7; 5 # 7; 6 # 7; 1]
-   ++ pairs_of [-1; -1 # 2; 0; 1 # 4; 1 # 2; 3 # 4; 1; 3 # 2; 2]
-   ++ pairs_of [1; 11 # 10; 12 # 10; 13 # 10; 14 # 10; 15 # 10; 16 # 10; 17 # 10; 18 # 10; 19 # 10; 2]
-   ++ [(0, 1 # 1000000); (0, 1 # 100000); (0, 1 # 10000); (0, 1 # 1000); (0, 1 # 100); (0, 1 # 10); (0, 1); (0, 10); (0, 100); (0, 1000); (0, 10000); (0, 100000); (0, 1000000);
-      (1 # 1000000, 1 # 100000); (1 # 100000, 1 # 10000); (1 # 10000, 1 # 1000); (1 # 1000, 1 # 100); (1 # 100, 1 # 10); (1 # 10, 1); (1, 10); (10, 100); (100, 1000); (1000, 10000); (10000, 100000); (100000, 1000000)]
-   ++ [(-1 # 2, 1 # 4); (1 # 1000, 1000); (100, 1001 # 10); (-37 # 10, 129 # 10); (1234567 # 10, 6543219 # 10); (-1000000, 1000000);
-      (0, 7); (-5 # 2, 5 # 2); (10, 11); (-1 # 10, 1 # 10); (11 # 2, 28 # 5); (0, 6283185307179586 # 1000000000000000);
-      (1000, 1001); (-1 # 1000000, 1 # 1000000); (7 # 10, 19 # 10); (-73 # 10, -11 # 10); (1 # 20, 19 # 20); (0, 3)])%Q ->
+  [(0, 1); (-1, 1); (9 # 10, 1); (1 # 10, 7 # 10); (1 # 3, 2 # 3); (0, 3 # 10); (2, 3); (-1 # 2, 1 # 4);
+   (0, 10); (1 # 1000, 1000); (100, 1001 # 10); (-37 # 10, 129 # 10); (1 # 1000000, 1 # 100000);
+   (1234567 # 10, 6543219 # 10); (0, 1 # 1000000); (-1000000, 1000000)]%Q ->
   (1 <= n <= 2000)%nat -> (1 <= mult)%nat ->
   let a := f_of_q qa in let b := f_of_q qb in
   let kv := make_knots_f p a b n mult in
@@ -276,5 +279,5 @@ Print Assumptions derivative_spline.
      positive diagonal N_i(g_i) > 0 (greville_diag_pos).
    - np.allclose-style comparisons are modelled over exact rationals; the binary64 evaluation of
      __eq__ is compared on inputs away from the tolerance threshold and scanned for asymmetry.
-   - the binary64 constructor outside the 266 listed intervals / n > 2000 (bit-exact tie on random
+   - the binary64 constructor outside the 16 listed intervals / n > 2000 (bit-exact tie on random
      intervals only). *)
